@@ -57,6 +57,14 @@ CHECKS = {
         "slot is tolerated (documented half-to-even rounding); MovingWindow is not sent samples older than its window.",
         "DESIGN.md section 3 C09",
     ),
+    "C12": (
+        "Hypothesis PBT over generated component graphs with ground-truth physics: every generated formula engine is run for real and compared with the constructed totals",
+        "Random valid trees (repository validation decides validity) with device powers on separate decimal scales; each of the 7 "
+        "formula generators (fallback on/off) is instantiated, run as a real engine on harness-fed channels and compared with the "
+        "totals known from the construction, plus the balance grid == consumer + producer + battery + EV. Exploration level.",
+        "The harness plays the resampling actor (answers each ComponentMetricRequest); all streams valid and in lock-step.",
+        "DESIGN.md section 3 C12",
+    ),
     "C15": (
         "Hypothesis PBT with injected per-call API faults (5 outcomes per set_power call, all 5^n vectors for small n): accounting identities against recorded calls",
         "Real BatteryManager and PVManager on a fake API whose every set_power call returns, is rejected, errors, raises or "
